@@ -1249,8 +1249,10 @@ fn interp_expr(e: &syn::Expr, mut st: TState, res: &mut ArmResult, guard: &Optio
             vec![st]
         }
         // a token value at the end of a path of `let tok = match .. { .. }` (see interp_stmt)
-        syn::Expr::Path(_) if t.text.starts_with("Tok::") => {
-            st.subst.insert("\u{0}value".to_string(), t.text.clone());
+        syn::Expr::Path(_) if subst(&st, t.text.clone()).starts_with("Tok::") => {
+            // (a parameter of an inlined helper stands for the token its caller passed)
+            let v = subst(&st, t.text.clone());
+            st.subst.insert("\u{0}value".to_string(), v);
             vec![st]
         }
         _ => {
